@@ -12,6 +12,9 @@
 (*   lists; tables are opened with a plan (row groups, rows, cells with    *)
 (*   spans) that satisfies the table model; td / th hold phrasing, p, ul;  *)
 (*   header / footer have no header / footer descendants; a is not nested. *)
+(* With Lax = TRUE the machine additionally writes malformed list markup    *)
+(* that the parser does not repair: ul / ol / div as a direct child of ul / *)
+(* ol ("sub-items" without an li).  The tree is still built as written.     *)
 (* Every element the machine may open is a descriptor                      *)
 (*   [tag, attr, planned, plan]                                            *)
 (* A planned element must open exactly the children listed in its plan, in *)
@@ -40,7 +43,9 @@ EXTENDS Integers, Sequences, FiniteSets, SequencesExt, TLC
 CONSTANTS Opens,      \* descriptors the machine may open by a free step
           Forms,      \* text forms a free text step may use
           MaxLen,     \* bound on the cost (free steps)
-          MaxDepth    \* bound on the nesting depth
+          MaxDepth,   \* bound on the nesting depth
+          Lax         \* TRUE: also generate the malformed list markup the HTML5 parser keeps in
+                      \* place - a list or a div directly inside ul / ol (not inside an li)
 
 VARIABLES stack,      \* open elements, body first
           stream,     \* the token stream generated so far
@@ -84,16 +89,16 @@ TextOK(f) == f.tag \in FlowBoxes \cup Headings \cup {"p", "li", "td", "th", "pre
 Allowed(f, d) ==
     /\ ~f.planned
     /\ d.tag \in FlowBoxes \ {"body"} =>
-          /\ f.tag \in FlowBoxes
+          /\ f.tag \in FlowBoxes \/ (Lax /\ d.tag = "div" /\ f.tag \in {"ul", "ol"})
           /\ d.tag \in {"header", "footer"} => ~f.nohf
     /\ d.tag \in Headings \cup {"table", "pre", "script"} => f.tag \in FlowBoxes
     /\ d.tag = "p"  => f.tag \in FlowBoxes \cup {"li", "td", "th"}
-    /\ d.tag \in {"ul", "ol"} => f.tag \in FlowBoxes \cup {"li", "td", "th"}
+    /\ d.tag \in {"ul", "ol"} => f.tag \in FlowBoxes \cup {"li", "td", "th"} \cup (IF Lax THEN {"ul", "ol"} ELSE {})
     /\ d.tag = "li" => f.tag \in {"ul", "ol"}
     /\ d.tag = "a"  => ~f.inA /\ f.tag \in FlowBoxes \cup Headings \cup {"p", "li", "td", "th"}
     /\ d.tag = "br" => f.tag \in Headings \cup {"p", "li", "td", "th"}
     /\ d.tag \in {"tr", "td", "th", "thead", "tbody", "tfoot", "style", "body", "#text"} => FALSE
-    /\ f.tag \in {"ul", "ol"} => d.tag = "li"
+    /\ f.tag \in {"ul", "ol"} => d.tag = "li" \/ (Lax /\ d.tag \in {"ul", "ol", "div"})
     /\ f.tag \in {"pre", "a", "script", "style", "br", "table", "tr", "thead", "tbody", "tfoot"} => FALSE
 
 Top == stack[Len(stack)]
@@ -198,7 +203,13 @@ ModeIx(m) == CHOOSE i \in 1..4 : Modes[i] = m
 \* optional end tags (HTML 13.1.2.4): which close items the renderer may leave out
 Omittable(i) ==
     /\ stream[i].op = "close"
-    /\ \/ stream[i].tag \in {"li", "td", "th", "tr", "thead", "tbody", "tfoot"}
+    /\ \/ stream[i].tag \in {"td", "th", "tr", "thead", "tbody", "tfoot"}
+       \* </li> may go only before another <li> or the end of the parent (in Lax documents
+       \* an li can be followed by a list or a div, which would then be parsed INTO the li)
+       \/ /\ stream[i].tag = "li"
+          /\ \/ i = Len(stream)
+             \/ stream[i + 1].op = "close"
+             \/ stream[i + 1].op = "open" /\ stream[i + 1].tag = "li"
        \/ /\ stream[i].tag = "p"
           /\ \/ i = Len(stream)
              \/ stream[i + 1].op = "close"
@@ -274,7 +285,7 @@ WellNested == /\ Len(StillOpen) = Len(stack) - 1
 ChildOK(pt, ct) ==
     CASE pt \in FlowBoxes -> ct \in (FlowBoxes \ {"body"}) \cup Headings \cup {"p", "ul", "ol", "table", "pre", "a", "script"}
       [] pt \in Headings \cup {"p"} -> ct = "a"
-      [] pt \in {"ul", "ol"} -> ct = "li"
+      [] pt \in {"ul", "ol"} -> ct = "li" \/ (Lax /\ ct \in {"ul", "ol", "div"})
       [] pt \in {"li", "td", "th"} -> ct \in {"p", "ul", "ol", "a"}
       [] pt = "table" -> ct \in {"thead", "tbody", "tfoot", "tr"}
       [] pt \in {"thead", "tbody", "tfoot"} -> ct = "tr"
